@@ -204,7 +204,7 @@ fn apply_impl(holder: &mut Item, target: Target, op: &KOp) -> Option<Ret> {
                     String::new()
                 }
                 KOp::SortValuesByRev => {
-                    t.sort_values_by(|k1, _, k2, _| k2.get().cmp(k1.get()));
+                    t.sort_values_by(|k1, v1, k2, v2| v2.as_integer().cmp(&v1.as_integer()).then(k1.get().cmp(k2.get())));
                     String::new()
                 }
                 KOp::Clear => {
@@ -286,7 +286,7 @@ fn apply_impl(holder: &mut Item, target: Target, op: &KOp) -> Option<Ret> {
                     String::new()
                 }
                 KOp::SortValuesByRev => {
-                    t.sort_values_by(|k1, _, k2, _| k2.get().cmp(k1.get()));
+                    t.sort_values_by(|k1, v1, k2, v2| v2.as_integer().cmp(&v1.as_integer()).then(k1.get().cmp(k2.get())));
                     String::new()
                 }
                 KOp::Clear => {
@@ -475,10 +475,15 @@ fn apply_model(m: &mut KM, target: Target, op: &KOp) -> (Option<Ret>, bool) {
                     (Slot::Ph, Slot::Ph) => std::cmp::Ordering::Equal,
                     (Slot::Ph, _) => std::cmp::Ordering::Less,
                     (_, Slot::Ph) => std::cmp::Ordering::Greater,
-                    _ => b.0.cmp(&a.0),
+                    (Slot::V(x), Slot::V(y)) => y.cmp(x).then(a.0.cmp(&b.0)),
                 });
             } else {
-                m.0.sort_by(|a, b| b.0.cmp(&a.0));
+                // by value, descending (a placeholder reads as "no integer" = smallest), then by key
+                let pay = |s: &Slot| match s {
+                    Slot::V(x) => Some(*x),
+                    Slot::Ph => None,
+                };
+                m.0.sort_by(|a, b| pay(&b.1).cmp(&pay(&a.1)).then(a.0.cmp(&b.0)));
             }
             String::new()
         }
